@@ -298,6 +298,64 @@ theorem selfToPath_complete (kres kpath : List Q3)
     have := key p (List.mem_of_getElem? hj)
     exact ⟨this.1, this.2.2⟩
 
+/-! ## component extraction: `KBandResult.get_component`, `TABresult.get_data` -/
+
+/-- T8a.  For a tensor of ANY rank and every index tuple, `get_component(data, component=(a, b, …))` returns the entry
+    `data[..., a, b, …]` — the tuple is read in axis order although the loop peels the last axis first. -/
+theorem getComponent_entry (T : Tensor) (comp idx : List Nat) : getComponent T comp idx = T (idx ++ comp) := by
+  unfold getComponent
+  rw [List.foldl_reverse]
+  exact foldr_peel T comp idx
+
+/-- rank 2: component `(a, b)` is `T[a][b]` -/
+theorem getComponent_rank2 (T : Tensor) (a b : Nat) : getComponent T [a, b] [] = T [a, b] :=
+  getComponent_entry T [a, b] []
+
+/-- T8b.  The forward loop of the seeded change W-C29 returns the entry of the REVERSED tuple (the transposed
+    element) … -/
+theorem getComponentFwd_entry (T : Tensor) (comp idx : List Nat) :
+    getComponentFwd T comp idx = T (idx ++ comp.reverse) := foldl_peel T comp idx
+
+/-- … so it agrees with the code on every tensor that is symmetric under reversal of its indices (energies,
+    vectors, inverse masses — which is why it passed unnoticed) … -/
+theorem getComponentFwd_agrees_on_symmetric (T : Tensor) (hsym : ∀ idx, T idx.reverse = T idx) (comp : List Nat) :
+    getComponentFwd T comp [] = getComponent T comp [] := by
+  rw [getComponentFwd_entry, getComponent_entry]
+  simpa using hsym comp
+
+/-- … and differs on a non-symmetric rank-2 tensor (`T[a][b] = 3a + b`, like `∂_b Ω_a`): component (0,1) is 1, the
+    forward loop returns `T[1][0] = 3`. -/
+theorem getComponentFwd_counterexample :
+    getComponent (tensorOfFlat [0, 1, 2, 3, 4, 5, 6, 7, 8]) [0, 1] [] = 1 ∧
+      getComponentFwd (tensorOfFlat [0, 1, 2, 3, 4, 5, 6, 7, 8]) [0, 1] [] = 3 := by
+  decide +kernel
+
+/-- T8c (path level).  Let the tensor `V k` be periodic in `k` and computed at the k-points `kres` in ANY order.
+    Whenever `self_to_path` succeeds, `get_data(component)` holds, for EVERY path point and in path order, exactly the
+    requested entry of the tensor evaluated at that point alone. -/
+theorem getDataPath_pointwise (V : Q3 → Tensor) (hper : ∀ k p, Congr k p → V k = V p)
+    (kres kpath : List Q3) (m : List Nat) (h : selfToPath kres kpath = some m) (comp : List Nat)
+    (j : Nat) (p : Q3) (hj : kpath[j]? = some p) :
+    (getDataPath V kres m comp).getD j 0 = V p comp := by
+  obtain ⟨hlen, hc⟩ := selfToPath_sound kres kpath m h
+  have hj' : j < m.length := by
+    rw [hlen]; exact (List.getElem?_eq_some_iff.mp hj).1
+  have hcj := hc j p hj
+  have e : m.getD j 0 = m[j] := by
+    rw [List.getD_eq_getElem?_getD, List.getElem?_eq_getElem hj']; rfl
+  rw [e] at hcj
+  unfold getDataPath toPath
+  rw [List.getD_eq_getElem?_getD, List.getElem?_map, List.getElem?_map, List.getElem?_eq_getElem hj']
+  simp only [Option.map_some, Option.getD_some]
+  rw [getD_map_default, hper _ _ hcj, getComponent_entry]
+  simp
+
+/-- non-vacuity: a rank-3 tensor, a path visited out of order -/
+example : getComponent (tensorOfFlat ((List.range 27).map (fun n => (n : Rat)))) [2, 0, 1] [] = 19 := by
+  decide +kernel
+example : getDataPath (fun k => fun idx => k.1 + (idx.foldl (fun a i => a * 3 + i) 0 : Nat))
+    [(1/2, 0, 0), (0, 0, 0), (1/4, 0, 0)] [1, 2, 0] [1, 2] = [5, 1/4 + 5, 1/2 + 5] := by decide +kernel
+
 /-! ## non-vacuity and concrete instances -/
 
 /-- Γ –4– X | M –3– Z : two segments separated by a break (labels 1..4) -/
